@@ -31,6 +31,8 @@ from .. import c12_render as R
 
 ALL_CTX = ['if', 'else', 'for', 'while', 'with', 'try', 'fin']
 ALL_TAILS = ['UE', 'CE', 'VE0', 'VE2', 'RE1', 'hdr']
+ALL_LINKS = ['conv', 'dnc', 'allow', 'nested']
+ALL_PRES = ['lam', 'def', 'deflam']
 
 CFG = '''SPECIFICATION Spec
 CONSTANT Mode = "%(mode)s"
@@ -43,6 +45,9 @@ CONSTANT MaxNestInner = %(maxinner)d
 CONSTANT InnerCtxs = {%(innerctxs)s}
 CONSTANT Tails = {%(tails)s}
 CONSTANT Links = {%(links)s}
+CONSTANT Pres = {%(pres)s}
+CONSTANT MaxPre = %(maxpre)d
+CONSTANT Ks = {%(ks)s}
 CONSTANT PreU = %(preu)d
 CONSTANT PreA = %(prea)d
 CONSTANT MaxFrames = %(maxframes)d
@@ -52,6 +57,7 @@ INVARIANT OnePerConverted
 INVARIANT TypeRule
 INVARIANT MessageKept
 INVARIANT ScanAssert
+INVARIANT ScopesBalanced
 INVARIANT Expect
 CHECK_DEADLOCK FALSE
 '''
@@ -64,9 +70,13 @@ def _q(xs):
 def _cfg(**kw):
     p = dict(mode='scenario', minchain=1, maxchain=2, maxcaller=1, callerctxs=_q(ALL_CTX), mininner=0, maxinner=1,
              innerctxs=_q(ALL_CTX), tails=_q(ALL_TAILS), links=_q(['conv', 'dnc', 'allow']),
+             pres=_q(ALL_PRES), maxpre=0, ks='1, 2, 3, 4, 5, 6, 7',
              preu=len(R.PRE_U), prea=len(R.PRE_A), maxframes=5)
     for k, v in kw.items():
-        p[k] = _q(v) if isinstance(v, (list, tuple)) else v
+        if k == 'ks':
+            p[k] = ', '.join(str(x) for x in v)
+        else:
+            p[k] = _q(v) if isinstance(v, (list, tuple)) else v
     return CFG % p
 
 
@@ -79,16 +89,25 @@ def _plans(tier):
             ('bfs-depth1', dict(maxchain=1, maxinner=1), None),
             ('bfs-depth2', dict(minchain=2, maxchain=2, maxcaller=1, callerctxs=['if', 'for', 'with'], maxinner=1,
                                 innerctxs=['else', 'while', 'try', 'fin']), None),
-            ('sim-deep', dict(minchain=3, maxchain=4, maxcaller=2, mininner=1, maxinner=3), dict(num=300, depth=200)),
-            ('sim-nest', dict(minchain=1, maxchain=2, maxcaller=2, mininner=2, maxinner=3), dict(num=150, depth=200)),
+            # scopes: nested defs on the call path, preludes of lambdas / local defs, exhaustively for chains <= 2
+            ('bfs-scopes', dict(minchain=1, maxchain=2, maxcaller=1, callerctxs=['if', 'with'], maxinner=1,
+                                innerctxs=['for', 'try'], links=['conv', 'nested'], maxpre=1, tails=['UE'], ks=[2, 7]), None),
+            ('sim-deep', dict(minchain=3, maxchain=4, maxcaller=2, mininner=1, maxinner=3, links=ALL_LINKS, maxpre=2),
+             dict(num=300, depth=500)),
+            ('sim-nest', dict(minchain=1, maxchain=2, maxcaller=2, mininner=2, maxinner=3, links=ALL_LINKS, maxpre=2),
+             dict(num=150, depth=500)),
         ]
     return [
         ('bfs-depth1', dict(maxchain=1, maxinner=2), None),
         ('bfs-depth2', dict(minchain=2, maxchain=2, maxcaller=1, maxinner=1), None),
         ('bfs-depth3', dict(minchain=3, maxchain=3, maxcaller=1, callerctxs=['if', 'while', 'with'], maxinner=1,
                             innerctxs=['for', 'else', 'try', 'fin']), None),
-        ('sim-deep', dict(minchain=3, maxchain=4, maxcaller=2, mininner=1, maxinner=3), dict(num=12000, depth=200)),
-        ('sim-nest', dict(minchain=1, maxchain=3, maxcaller=2, mininner=2, maxinner=3), dict(num=8000, depth=200)),
+        ('bfs-scopes', dict(minchain=1, maxchain=2, maxcaller=1, callerctxs=['if', 'for', 'with'], maxinner=1,
+                            innerctxs=['else', 'while', 'try'], links=ALL_LINKS, maxpre=1, tails=['UE', 'hdr'], ks=[2, 7]), None),
+        ('sim-deep', dict(minchain=3, maxchain=4, maxcaller=2, mininner=1, maxinner=3, links=ALL_LINKS, maxpre=3),
+         dict(num=12000, depth=600)),
+        ('sim-nest', dict(minchain=1, maxchain=3, maxcaller=2, mininner=2, maxinner=3, links=ALL_LINKS, maxpre=3),
+         dict(num=8000, depth=600)),
     ]
 
 
@@ -108,12 +127,12 @@ class Modules(object):
         importlib.invalidate_caches()
         self.loaded = []
 
-    def get(self, chain, nest, tail, fresh=False, modid=None):
-        key = json.dumps([chain, nest, tail])
+    def get(self, chain, nest, tail, fresh=False, modid=None, pre=None):
+        key = json.dumps([chain, nest, tail, pre])
         if not fresh and key in self.cache:
             return self.cache[key]
         self.n += 1
-        r = R.render(chain, nest, tail, modid=self.base + self.n if modid is None else modid)
+        r = R.render(chain, nest, tail, modid=self.base + self.n if modid is None else modid, pre=pre)
         uname = 'c12u_%d' % self.n
         aname = 'c12allow.m%d' % self.n
         upath = os.path.join(self.root, uname + '.py')
@@ -131,13 +150,13 @@ class Modules(object):
         fobj = []
         for i, fn in enumerate(r['fns'], 1):
             m = U if fn['file'] == 'U' else A
-            fobj.append(getattr(m, 'f%d' % i))
+            fobj.append(None if fn['nested'] else getattr(m, 'f%d' % i))    # a nested def exists only while its caller runs
         for i, fn in enumerate(r['fns'], 1):      # callee visible from the caller's module
-            if i > 1:
+            if i > 1 and not fn['nested']:
                 m = U if r['fns'][i - 2]['file'] == 'U' else A
                 setattr(m, 'f%d' % i, fobj[i - 1])
         mod = dict(U=U, A=A, upath=upath, apath=apath, fobj=fobj, r=r, key=key, checked_map=False,
-                   files={upath: 'U', apath: 'A'}, chain=chain, nest=nest, tail=tail)
+                   files={upath: 'U', apath: 'A'}, chain=chain, nest=nest, tail=tail, pre=pre)
         if not fresh:
             self.cache[key] = mod
         return mod
@@ -153,7 +172,7 @@ class Modules(object):
 # helpers
 # --------------------------------------------------------------------------------------------------
 def _witness(rec, mod, extra=None):
-    w = dict(chain=rec['chain'], nest=rec['nest'], tail=rec['tail'], k=rec['k'], prior=rec['prior'],
+    w = dict(chain=rec['chain'], nest=rec['nest'], pre=rec['pre'], tail=rec['tail'], k=rec['k'], prior=rec['prior'],
              kind=rec['kind'], source_U=mod['r']['U'], source_A=mod['r']['A'],
              run="p = vf.c12_render.inputs(k, tail); malt.convert(recursive=True)(U.f1)(p, 1)",
              expected=dict(type=rec['demanded'], orig=rec['orig'], stack=rec['stack']))
@@ -167,6 +186,23 @@ def _shape(rec):
     tailconv = 'allconv' if all(eff) else 'unconverted-tail'
     where = 'hdr' if (rec['tail'] == 'hdr' and rec['k'] == 7) else 'stmt'
     return '%s:%s:%s' % (tailconv, where, 'prior' if rec['prior'] else 'fresh')
+
+
+def _scopes(rec):
+    """Which kinds of scopes the functions of the scenario contain (for messages and signatures)."""
+    s = sorted({kd for p in rec['pre'] for kd in p} | ({'nested'} if 'nested' in rec['chain'] else set()))
+    return '+'.join(s) or 'plain'
+
+
+def _name_class(name):
+    """Whose name a frame / origin carries instead of its own function's (stable part of a signature)."""
+    if name == '<lambda>':
+        return 'of-a-lambda'
+    if re.match(r'^h\d+$', name or ''):
+        return 'of-a-local-def'
+    if re.match(r'^f\d+$', name or ''):
+        return 'of-another-function-of-the-chain'
+    return 'unknown-name'
 
 
 def _unwrap(f):
@@ -243,13 +279,18 @@ class Runner(object):
             return
         mod['checked_map'] = True
         r = mod['r']
+        units = rec['unit']
         for i, eff in enumerate(rec['conv'], 1):
-            if not eff:
+            if not eff or units[i - 1] != i:       # one source map per separately converted function
                 continue
             f = mod['fobj'][i - 1]
             fkey = r['fns'][i - 1]['file']
             opath = mod['upath'] if fkey == 'U' else mod['apath']
-            stmts = {ln: role for ln, (fi, role) in r[fkey + '_stmts'].items() if fi == i}
+            # statements of the conversion unit: the function and the defs nested in it
+            stmts = {ln: role for ln, (fi, role) in r[fkey + '_stmts'].items() if units[fi - 1] == i}
+            owner = {ln: fi for ln, (fi, role) in r[fkey + '_stmts'].items() if units[fi - 1] == i}
+            # function name of every statement the specification lists (ErrorMap.tla Resolve* actions)
+            spec_names = {e['line']: e['fn'] for e in rec['names'] if e['file'] == fkey}
             olines = r[fkey].split('\n')
             try:
                 g = self.malt.to_graph(f)
@@ -280,8 +321,17 @@ class Runner(object):
                     self.rep.violation('c12:source-map:origin-not-a-statement-of-the-function',
                                        'a generated line is mapped to a line that is no statement of the converted function', w)
                     continue
-                if org.function_name != 'f%d' % i:
-                    self.rep.violation('c12:source-map:function-name', 'origin function name is not the converted function', w)
+                # function name: of the def the statement is in.  Not demanded for the lines of nested `def` headers
+                # (executed by the enclosing function, labelled with the new function by malt); a line holding a lambda
+                # may carry either the enclosing function's name or '<lambda>' (the statement cannot fail there).
+                want = spec_names.get(org.loc.lineno, 'f%d' % owner[org.loc.lineno])
+                ok_names = {want} | ({'<lambda>'} if role == 'prelam' else set())
+                if role == 'predef' or (role == 'def' and owner[org.loc.lineno] != i):
+                    pass
+                elif org.function_name not in ok_names:
+                    self.rep.violation('c12:source-map:function-name:' + _name_class(org.function_name),
+                                       'a generated line is mapped to the right line (%d, %s) but to function %r; the statement '
+                                       'is in %r' % (org.loc.lineno, role, org.function_name, want), w)
                 if (org.source_code_line or '').strip() != olines[org.loc.lineno - 1].strip():
                     self.rep.violation('c12:source-map:source-line-text', 'origin source_code_line is not the text of the origin line', w)
                 # S3: a generated line that carries the token(s) of exactly one original statement was generated
@@ -301,7 +351,7 @@ class Runner(object):
                             marked[t] = marked.get(t, 0) + 1
             # S3b: every statement that can be on a traceback has a mapped generated line of its own
             for ln, role in stmts.items():
-                if role in ('def', 'filler', 'return', 'with', 'try'):
+                if role in ('def', 'filler', 'return', 'with', 'try', 'pre', 'predef', 'prelam'):
                     continue
                 if not marked.get(ln):
                     self.rep.violation('c12:source-map:statement-unmapped:%s' % role,
@@ -311,19 +361,19 @@ class Runner(object):
     # ---- 1 + 2. one scenario -----------------------------------------------------------------------
     def scenario(self, rec, twin=False):
         rep = self.rep
-        chain, nest, tail, k = rec['chain'], rec['nest'], rec['tail'], rec['k']
+        chain, nest, tail, k, pre = rec['chain'], rec['nest'], rec['tail'], rec['k'], rec['pre']
         if twin:
             # history: a file with the same text was loaded and converted before (e.g. one module under two paths)
             self.mods.n += 1
             tid = self.mods.base + self.mods.n
-            first = self.mods.get(chain, nest, tail, fresh=True, modid=tid)
+            first = self.mods.get(chain, nest, tail, fresh=True, modid=tid, pre=pre)
             try:
                 self.malt.convert(recursive=True)(first['fobj'][0])(R.inputs(k, tail), 1)
             except Exception:
                 pass
-            mod = self.mods.get(chain, nest, tail, fresh=True, modid=tid)
+            mod = self.mods.get(chain, nest, tail, fresh=True, modid=tid, pre=pre)
         else:
-            mod = self.mods.get(chain, nest, tail, fresh=rec['prior'])
+            mod = self.mods.get(chain, nest, tail, fresh=rec['prior'], pre=pre)
         files = mod['files']
         f1 = mod['fobj'][0]
         # renderer vs. specification layout
@@ -334,7 +384,7 @@ class Runner(object):
         # --- 1. the original function's own traceback (model validation against CPython)
         try:
             f1(R.inputs(k, tail), 1)
-            raise common.MachineryError('unconverted run did not fail: %s' % json.dumps([chain, nest, tail, k]))
+            raise common.MachineryError('unconverted run did not fail: %s' % json.dumps([chain, nest, pre, tail, k]))
         except common.MachineryError:
             raise
         except Exception as e:
@@ -400,14 +450,25 @@ class Runner(object):
                 rep.violation('c12:stack:twin-file',
                               'a function whose text and position equal those of a function of another file converted earlier is '
                               'reported at the other file: user frames of this file listed %s, expected %s' % (got, exp), w)
+            elif got and got[0] != inner and [got[0][0], got[0][2]] == [inner[0], inner[2]]:
+                rep.violation('c12:stack:innermost:function-name:%s:%s' % (_name_class(got[0][1]), shape),
+                              'the innermost user frame has the file and line of the failing statement but names function %r; '
+                              'the statement is in %r (scopes of the function: %s)' % (
+                                  got[0][1], inner[1], _scopes(rec)), w)
             elif not got or got[0] != inner:
                 rep.violation('c12:stack:innermost:%s:%s' % (rec['kind'], shape),
                               'innermost user frame named is %s, the failing statement is %s' % (got[0] if got else None, inner), w)
+            elif sorted([g[0], g[2]] for g in got) == sorted([e[0], e[2]] for e in exp):
+                rep.violation('c12:stack:caller-function-name:' + shape,
+                              'a caller frame has the file and line of the call statement but names another function: '
+                              'listed %s, the frames of the original traceback are %s (scopes: %s)' % (got, spec_orig, _scopes(rec)), w)
             elif not _is_subseq(list(reversed(got)), spec_orig):
                 rep.violation('c12:stack:not-frames-of-the-original-traceback:' + shape,
                               'user frames listed %s are not a subsequence of the original traceback %s' % (got, spec_orig), w)
             else:
-                bad = [i for i, eff in enumerate(rec['conv'], 1) if eff and sum(1 for g in got if g[1] == 'f%d' % i) != 1]
+                units = rec['unit']      # one entry per separately converted function (with the defs nested in it)
+                bad = [i for i, eff in enumerate(rec['conv'], 1) if eff and units[i - 1] == i and
+                       sum(1 for g in got if g[1] in ['f%d' % q for q in range(1, len(units) + 1) if units[q - 1] == i]) != 1]
                 if bad:
                     rep.violation('c12:stack:one-per-converted:' + shape,
                                   'converted function(s) %s on the call path have no / several entries: %s' % (
@@ -442,15 +503,15 @@ class Runner(object):
             cl.pop(0)
         spec_cl = ['G' if f['file'].startswith('G') else f['file'] for f in rec['full']]
         if cl != spec_cl and not rec['prior'] and not twin:
-            self.shape_mismatch.append((cl, spec_cl, json.dumps([chain, nest, tail, k])))
+            self.shape_mismatch.append((cl, spec_cl, json.dumps([chain, nest, pre, tail, k])))
         # --- 3. every scan of this scenario against the real function
         for sc in rec['scans']:
-            self.check_scan(sc['tb'], sc['map'], sc['res'], dict(chain=chain, nest=nest, tail=tail, k=k, lvl=sc['lvl']))
+            self.check_scan(sc['tb'], sc['map'], sc['res'], dict(chain=chain, nest=nest, pre=pre, tail=tail, k=k, lvl=sc['lvl']))
         # --- 4. source maps of the converted functions of this module
         if not twin:
             self.check_source_map(rec, mod)
         rep.validated()
-        rep.sample(dict(chain=chain, nest=nest, tail=tail, k=k, kind=rec['kind'], observed_type=t1.__name__, user_frames=got))
+        rep.sample(dict(chain=chain, nest=nest, pre=pre, tail=tail, k=k, kind=rec['kind'], observed_type=t1.__name__, user_frames=got))
 
     shape_mismatch = []
     imprecise = []
@@ -548,7 +609,7 @@ def _run(rep, tier, only=None):
     # ---- scenario mode
     tot = dict(modules=0, scans=fr.n_scans, maps=0, entries=0, flags=0, nshape=0, nimprecise=0)
     shape, imprecise, errs = [], [], []
-    seen_dims = dict(kind=set(), link=set(), ctx=set(), type=set(), depth=set(), nestdepth=set())
+    seen_dims = dict(kind=set(), link=set(), ctx=set(), type=set(), depth=set(), nestdepth=set(), pre=set())
     nsc = 0
     ctx = multiprocessing.get_context('fork')
     for name, kw, sim in _plans(tier):
@@ -571,7 +632,7 @@ def _run(rep, tier, only=None):
         for r in res.json:
             if r.get('mode') != 'scenario':
                 continue
-            key = json.dumps([r['chain'], r['nest'], r['tail'], r['prior'], r['k']])
+            key = json.dumps([r['chain'], r['nest'], r['pre'], r['tail'], r['prior'], r['k']])
             if key not in seen:
                 seen.add(key)
                 uniq.append((key, r))
@@ -586,6 +647,7 @@ def _run(rep, tier, only=None):
             seen_dims['type'].add(r['type'])
             seen_dims['depth'].add(len(r['chain']))
             seen_dims['nestdepth'].add(len(r['nest'][-1]))
+            seen_dims['pre'].update(kd for p in r['pre'] for kd in p)
         items = [(r, False) for _, r in uniq]
         if name == 'bfs-depth1':
             tw = [(r, True) for _, r in uniq if r['k'] in (2, 7) and not r['prior']][:6]
@@ -618,8 +680,8 @@ def _run(rep, tier, only=None):
         raise common.MachineryError(errs[0])
     if not only:      # vacuity: every value of every scenario dimension was exercised
         want = dict(kind={'UE', 'CE', 'VE0', 'VE2', 'RE1', 'KeyError', 'IndexError', 'ZeroDivisionError', 'TypeError', 'AttributeError', 'ValueError'},
-                    link={'conv', 'dnc', 'allow'}, ctx=set(ALL_CTX), type={'same', 'keysub', 'staging'},
-                    depth={1, 2, 3, 4}, nestdepth={0, 1, 2, 3})
+                    link=set(ALL_LINKS), ctx=set(ALL_CTX), type={'same', 'keysub', 'staging'},
+                    depth={1, 2, 3, 4}, nestdepth={0, 1, 2, 3}, pre=set(ALL_PRES))
         for d, w in want.items():
             if not w <= seen_dims[d]:
                 raise common.MachineryError('vacuity: dimension %s only saw %s' % (d, sorted(seen_dims[d], key=str)))
